@@ -527,6 +527,7 @@ def _dataclass_inits(tree: ast.Module) -> int:
             n.col_offset = like.col_offset
             n.end_lineno = like.end_lineno
             n.end_col_offset = like.end_col_offset
+        fn._synthetic = True
         cls.body.append(fn)
         n_done += 1
     return n_done
